@@ -72,6 +72,7 @@
 #include <cstring>
 #include <dirent.h>
 #include <fcntl.h>
+#include <functional>
 #include <map>
 #include <memory>
 #include <set>
@@ -976,15 +977,28 @@ make_order_corpus(const std::string& workdir, vh::Rng& rng)
         *it = static_cast<float>(1 + (i++ % 11));
       if (write_basic_interfile(workdir + "/img_ew", *image) == Succeeded::yes)
         seeds.push_back({ T_IMAGE, "img_ew", slurp(workdir + "/img_ew.hv") });
-      ParametricVoxelsOnCartesianGrid par(*image);
-      for (unsigned kp = 1; kp <= ParametricVoxelsOnCartesianGrid::get_num_params(); ++kp)
+      // two parametric images: without any time-frame information (the header then has 'number of time frames := 1' and no
+      // per-frame keys, so that key may come anywhere), and with the frame and the energy window of the image above
+      for (int variant = 0; variant < 2; ++variant)
         {
-          VoxelsOnCartesianGrid<float> single = *image;
-          single *= static_cast<float>(kp + 1);
-          par.update_parametric_image(single, kp);
+          VoxelsOnCartesianGrid<float> base = *image;
+          if (variant == 0)
+            {
+              ExamInfo plain;
+              plain.imaging_modality = ImagingModality::PT;
+              base.set_exam_info(plain);
+            }
+          ParametricVoxelsOnCartesianGrid par(base);
+          for (unsigned kp = 1; kp <= ParametricVoxelsOnCartesianGrid::get_num_params(); ++kp)
+            {
+              VoxelsOnCartesianGrid<float> single = base;
+              single *= static_cast<float>(kp + 1);
+              par.update_parametric_image(single, kp);
+            }
+          const std::string name = "par_" + std::to_string(variant);
+          if (write_basic_interfile(workdir + "/" + name, par) == Succeeded::yes)
+            seeds.push_back({ T_PARAMIMAGE, name, slurp(workdir + "/" + name + ".hv") });
         }
-      if (write_basic_interfile(workdir + "/par_0", par) == Succeeded::yes)
-        seeds.push_back({ T_PARAMIMAGE, "par_0", slurp(workdir + "/par_0.hv") });
     }
   catch (std::exception& e)
     {
@@ -1061,12 +1075,14 @@ run_order(Target t, const std::string& text, const std::string& canon, const std
   if (accP && accC && dumpP != dumpC)
     return "inconsistent {order:values-differ} header with its size-giving keys in another order is accepted with other values: " + dumpP + " | canonical order: " + dumpC;
   const std::string vP = run_target(t, text, workdir, true);
-  if (!is_accepted(vP))
+  if (vP.compare(0, 12, "inconsistent") == 0)
     return vP;
+  if (!is_accepted(vP))
+    return vP + " order-family";
   const std::string vC = run_target(t, canon, workdir, true);
   if (is_accepted(vC) && vC != vP)
     return "inconsistent {order:data-differ} header with its size-giving keys in another order: " + vP + " | canonical order: " + vC;
-  return vP;
+  return vP + " order-family";
 }
 
 static const char* ORDER_TAG = "order-canonical ";
@@ -1086,6 +1102,9 @@ order_inputs(const Seed& seed, vh::Rng& rng, int n)
   std::vector<Structured> out;
   const std::vector<std::string> lines = split_lines(seed.text);
   std::set<std::string> seen;
+  for (auto& d : c17::directed_reorders(lines))
+    if (join_lines(d.second) != seed.text && seen.insert(join_lines(d.second)).second)
+      out.push_back({ join_lines(d.second), ORDER_TAG + hexs(seed.text) });
   for (int k = 0; k < n; ++k)
     {
       std::string how;
@@ -1717,6 +1736,422 @@ apply_expectation(const std::string& expect, const std::string& verdict)
   return verdict;
 }
 
+
+// ------------------------------------------------------------------------------------------------ copies of parsing objects
+// History: an object is built from a text and prints itself (so its keymap is in use); it is copied (copy constructor /
+// clone() / assignment into an object that has printed itself already); then the ORIGINAL is re-parsed with other values, or
+// destroyed, or left alone; then the COPY prints itself: that has to be the text of the values it was copied with.  Parsing
+// other values into the copy must not change what the original prints, and the text of the copy has to parse into a fresh
+// object that prints the same text.  Under ASan a copy that kept KeyParser pointers into the original is a use-after-free.
+static std::string g_workdir_for_copy;
+
+struct CopyOps
+{
+  virtual ~CopyOps() {}
+  virtual bool make(const std::string& text) = 0;
+  virtual CopyOps* copy(int how) const = 0;
+  virtual bool parse(const std::string& text) = 0;
+  virtual std::string info() = 0;
+  virtual std::string default_text() = 0;
+};
+
+template <class T>
+struct ConcreteOps : public CopyOps
+{
+  std::unique_ptr<T> p;
+  std::string seed_text; // for classes whose default-constructed object is refused by its own post_processing
+  explicit ConcreteOps(const std::string& seed_text_v = "")
+      : seed_text(seed_text_v)
+  {}
+  bool make(const std::string& text) override
+  {
+    p.reset(new T);
+    return parse(text);
+  }
+  CopyOps* copy(int how) const override
+  {
+    ConcreteOps<T>* c = new ConcreteOps<T>(seed_text);
+    if (how == 1)
+      {
+        c->p.reset(new T);
+        c->p->parameter_info(); // the target of the assignment has its keymap in use as well
+        *c->p = *p;
+      }
+    else
+      c->p.reset(new T(*p));
+    return c;
+  }
+  bool parse(const std::string& text) override
+  {
+    std::istringstream in(text);
+    return p->parse(in);
+  }
+  std::string info() override { return p->parameter_info(); }
+  std::string default_text() override
+  {
+    T t;
+    if (!seed_text.empty())
+      {
+        std::istringstream in(seed_text);
+        if (!t.parse(in))
+          return "";
+      }
+    return t.parameter_info();
+  }
+};
+
+static std::string
+start_keyword_from_warnings(const std::string& warnings)
+{
+  const std::string tag = "required first keyword \"";
+  std::size_t pos = warnings.find(tag);
+  if (pos == std::string::npos)
+    return "";
+  pos += tag.size();
+  const std::size_t e = warnings.find('"', pos);
+  return e == std::string::npos ? "" : warnings.substr(pos, e - pos);
+}
+
+template <class Root>
+struct ClonedOps : public CopyOps
+{
+  std::string name, seed_text;
+  std::unique_ptr<Root> p;
+  ClonedOps(const std::string& n, const std::string& t)
+      : name(n),
+        seed_text(t)
+  {}
+  bool make(const std::string& text) override
+  {
+    std::istringstream in(text);
+    p.reset(RegisteredObject<Root>::read_registered_object(&in, name));
+    return p != nullptr;
+  }
+  CopyOps* copy(int) const override
+  {
+    ClonedOps<Root>* c = new ClonedOps<Root>(name, seed_text);
+    c->p.reset(p->clone());
+    return c;
+  }
+  bool parse(const std::string& text) override
+  {
+    std::istringstream in(text);
+    return p->parse(in);
+  }
+  std::string info() override { return p->parameter_info(); }
+  std::string default_text() override
+  {
+    std::string text = seed_text;
+    if (text.empty())
+      {
+        g_sink.str("");
+        std::istringstream in("zz verif no such keyword :=\n");
+        std::unique_ptr<Root> none(RegisteredObject<Root>::read_registered_object(&in, name));
+        const std::string kw = start_keyword_from_warnings(g_sink.str());
+        if (kw.empty())
+          return "";
+        text = kw + " :=\n";
+      }
+    std::size_t at;
+    while ((at = text.find("@D@")) != std::string::npos)
+      text.replace(at, 3, g_workdir_for_copy);
+    std::istringstream in(text);
+    std::unique_ptr<Root> q(RegisteredObject<Root>::read_registered_object(&in, name));
+    return q ? q->parameter_info() : std::string();
+  }
+};
+
+static std::map<std::string, std::string>&
+clone_seed_texts()
+{
+  static std::map<std::string, std::string> m;
+  if (m.empty())
+    {
+      m["Shape3D/Ellipsoid"] = "Ellipsoid Parameters :=\nradius-x (in mm) := 10\nradius-y (in mm) := 20\nradius-z (in mm) := 30\nEnd :=\n";
+      m["Shape3D/Ellipsoidal Cylinder"] = "Ellipsoidal Cylinder Parameters :=\nradius-x (in mm) := 10\nradius-y (in mm) := 20\nlength-z (in mm) := 30\nEnd :=\n";
+      m["Shape3D/Box3D"] = "Box Parameters :=\nlength-x (in mm) := 10\nlength-y (in mm) := 20\nlength-z (in mm) := 30\nEND :=\n";
+      m["Shape3D/Discretised Shape3D"] = "Discretised Shape3D Parameters :=\ninput filename := @D@/img_0.hv\nEND :=\n";
+      m["BackProjectorByBin/Matrix"] = "Back Projector Using Matrix Parameters :=\nMatrix type := Ray Tracing\nRay Tracing Matrix Parameters :=\nnumber of rays in tangential "
+                                       "direction to trace for each bin := 2\nEnd Ray Tracing Matrix Parameters :=\nEnd Back Projector Using Matrix Parameters :=\n";
+      m["BackProjectorByBin/Post Smoothing"]
+          = "Post Smoothing Back Projector Parameters :=\nOriginal Back projector type := Interpolation\nBack Projector Using Interpolation Parameters :=\nEnd Back Projector "
+            "Using Interpolation Parameters :=\nfilter type := Median\nMedian Filter Parameters :=\nmask radius x := 1\nEnd Median Filter Parameters :=\nEnd Post Smoothing "
+            "Back Projector Parameters :=\n";
+    }
+  return m;
+}
+
+typedef DiscretisedDensity<3, float> DD3;
+
+// all classes with a history driver: "<kind>/<name>" -> factory
+static std::vector<std::pair<std::string, std::function<CopyOps*()>>>&
+copy_classes()
+{
+  static std::vector<std::pair<std::string, std::function<CopyOps*()>>> v;
+  if (!v.empty())
+    return v;
+#define C17_CONCRETE(label, T) v.push_back(std::make_pair(std::string("copy-constructor/") + label, std::function<CopyOps*()>([]() -> CopyOps* { return new ConcreteOps<T>; })))
+#define C17_CONCRETE_FROM(label, T, text) v.push_back(std::make_pair(std::string("copy-constructor/") + label, std::function<CopyOps*()>([]() -> CopyOps* { return new ConcreteOps<T>(text); })))
+  C17_CONCRETE("SeparableGaussianImageFilter", SeparableGaussianImageFilter<float>);
+  C17_CONCRETE("SeparableCartesianMetzImageFilter", SeparableCartesianMetzImageFilter<float>);
+  C17_CONCRETE("SeparableConvolutionImageFilter", SeparableConvolutionImageFilter<float>);
+  C17_CONCRETE("MedianImageFilter3D", MedianImageFilter3D<float>);
+  C17_CONCRETE("MinimalImageFilter3D", MinimalImageFilter3D<float>);
+  C17_CONCRETE("MaximalImageFilter3D", MaximalImageFilter3D<float>);
+  C17_CONCRETE("ThresholdMinToSmallPositiveValueDataProcessor", ThresholdMinToSmallPositiveValueDataProcessor<DD3>);
+  C17_CONCRETE("TruncateToCylindricalFOVImageProcessor", TruncateToCylindricalFOVImageProcessor<float>);
+  C17_CONCRETE("ChainedDataProcessor", ChainedDataProcessor<DD3>);
+  C17_CONCRETE("QuadraticPrior", QuadraticPrior<float>);
+  C17_CONCRETE("RelativeDifferencePrior", RelativeDifferencePrior<float>);
+  C17_CONCRETE("LogcoshPrior", LogcoshPrior<float>);
+  C17_CONCRETE("FilterRootPrior", FilterRootPrior<DD3>);
+  C17_CONCRETE_FROM("ProjectorByBinPairUsingProjMatrixByBin", ProjectorByBinPairUsingProjMatrixByBin,
+                    "Projector Pair Using Matrix Parameters :=\nMatrix type := Ray Tracing\nRay Tracing Matrix Parameters :=\nnumber of rays in tangential direction to trace for "
+                    "each bin := 2\nEnd Ray Tracing Matrix Parameters :=\nEnd Projector Pair Using Matrix Parameters :=\n");
+  C17_CONCRETE_FROM("ProjectorByBinPairUsingSeparateProjectors", ProjectorByBinPairUsingSeparateProjectors,
+                    "Projector Pair Using Separate Projectors Parameters :=\nForward projector type := Ray Tracing\nForward Projector Using Ray Tracing Parameters :=\nEnd "
+                    "Forward Projector Using Ray Tracing Parameters :=\nBack projector type := Interpolation\nBack Projector Using Interpolation Parameters :=\nEnd Back Projector "
+                    "Using Interpolation Parameters :=\nEnd Projector Pair Using Separate Projectors Parameters :=\n");
+  C17_CONCRETE("ForwardProjectorByBinUsingRayTracing", ForwardProjectorByBinUsingRayTracing);
+  C17_CONCRETE("ChainedBinNormalisation", ChainedBinNormalisation);
+#undef C17_CONCRETE
+#undef C17_CONCRETE_FROM
+  auto add_root = [&](const char* rootname, auto* root_tag) {
+    typedef typename std::remove_pointer<decltype(root_tag)>::type Root;
+    std::ostringstream names;
+    RegisteredObject<Root>::list_registered_names(names);
+    for (const std::string& name : split_lines(names.str()))
+      {
+        if (name.empty() || name == "None")
+          continue;
+        const std::string key = std::string(rootname) + "/" + name;
+        const std::string text = clone_seed_texts().count(key) ? clone_seed_texts()[key] : std::string();
+        v.push_back(std::make_pair("clone/" + key, std::function<CopyOps*()>([name, text]() -> CopyOps* { return new ClonedOps<Root>(name, text); })));
+      }
+  };
+  add_root("Shape3D", static_cast<Shape3D*>(nullptr));
+  add_root("BackProjectorByBin", static_cast<BackProjectorByBin*>(nullptr));
+  add_root("ProjMatrixByBin", static_cast<ProjMatrixByBin*>(nullptr));
+  return v;
+}
+
+// numeric values of a printed text replaced by other numbers (a replaced file or type name would need external data)
+static std::string
+other_numbers(const std::string& text, vh::Rng& rng)
+{
+  std::vector<std::string> lines = split_lines(text);
+  std::vector<int> cand;
+  for (std::size_t k = 0; k < lines.size(); ++k)
+    {
+      const std::size_t as = lines[k].find(":= ");
+      if (as == std::string::npos)
+        continue;
+      const std::string v = lines[k].substr(as + 3);
+      char* end = nullptr;
+      std::strtod(v.c_str(), &end);
+      if (!v.empty() && end != v.c_str() && *end == '\0')
+        cand.push_back(static_cast<int>(k));
+    }
+  if (cand.empty())
+    return text;
+  const int nrep = rng.range(1, std::min<int>(3, static_cast<int>(cand.size())));
+  for (int r = 0; r < nrep; ++r)
+    {
+      const int k = cand[rng.range(0, static_cast<int>(cand.size()) - 1)];
+      const std::size_t as = lines[k].find(":= ");
+      const std::string v = lines[k].substr(as + 3);
+      static const char* ints[] = { "0", "1", "2", "3", "5", "7" };
+      static const char* reals[] = { "0.5", "2.5", "1", "1.25", "3", "12.5" };
+      lines[k] = lines[k].substr(0, as + 3) + (v.find_first_of(".eE") == std::string::npos ? ints[rng.range(0, 5)] : reals[rng.range(0, 5)]);
+    }
+  return join_lines(lines);
+}
+
+static std::string
+first_diff(const std::string& a, const std::string& b)
+{
+  const std::vector<std::string> la = split_lines(a), lb = split_lines(b);
+  for (std::size_t k = 0; k < std::max(la.size(), lb.size()); ++k)
+    {
+      const std::string x = k < la.size() ? la[k] : "<end>", y = k < lb.size() ? lb[k] : "<end>";
+      if (x != y)
+        return "line " + std::to_string(k + 1) + ": '" + x + "' / '" + y + "'";
+    }
+  return "(trailing blank lines)";
+}
+
+// a text with other numbers than `text` that the class accepts for a FRESH object (tried on a scratch object, so that no object of
+// the history is left half-way through a refused parse); "" if none is found
+static std::string
+accepted_variant(const std::function<CopyOps*()>& factory, const std::string& text, vh::Rng& rng)
+{
+  for (int attempt = 0; attempt < 8; ++attempt)
+    {
+      const std::string t = other_numbers(text, rng);
+      try
+        {
+          std::unique_ptr<CopyOps> scratch(factory());
+          if (scratch->make(t) && scratch->info() != text)
+            return t;
+        }
+      catch (std::bad_alloc&)
+        {
+          throw;
+        }
+      catch (std::exception&)
+        {}
+    }
+  return "";
+}
+
+// script: "class <key>\nhow <0|1>\nthen <reparse|destroy|keep>\nseed <n>\n"
+static std::string
+run_copy_history(const std::string& script)
+{
+  std::string cls, then = "keep";
+  int how = 0;
+  uint64_t seed = 1;
+  for (const std::string& l : split_lines(script))
+    {
+      if (l.compare(0, 6, "class ") == 0)
+        cls = l.substr(6);
+      else if (l.compare(0, 4, "how ") == 0)
+        how = std::atoi(l.c_str() + 4);
+      else if (l.compare(0, 5, "then ") == 0)
+        then = l.substr(5);
+      else if (l.compare(0, 5, "seed ") == 0)
+        seed = std::strtoull(l.c_str() + 5, nullptr, 10);
+    }
+  std::function<CopyOps*()> factory;
+  for (auto& c : copy_classes())
+    if (c.first == cls)
+      factory = c.second;
+  if (!factory)
+    return "rejected no such class";
+  std::string key = cls;
+  for (char& c : key)
+    if (!isalnum(static_cast<unsigned char>(c)))
+      c = '_';
+  const std::string bad = "inconsistent {copy:" + key + "} ";
+  vh::Rng rng(seed);
+  std::unique_ptr<CopyOps> A(factory());
+  const std::string base = A->default_text();
+  if (base.empty())
+    return "rejected not-constructible " + key + " (no default text)";
+  // the original: built from its default text with other numbers, if the class accepts them
+  std::string sA;
+  bool built = false;
+  for (int attempt = 0; attempt < 6 && !built; ++attempt)
+    {
+      try
+        {
+          built = A->make(attempt < 5 ? other_numbers(base, rng) : base);
+        }
+      catch (std::bad_alloc&)
+        {
+          throw;
+        }
+      catch (std::exception&)
+        {}
+    }
+  if (!built)
+    return "rejected not-constructible " + key + " (own default text is refused)";
+  sA = A->info();
+  // does the class reproduce its own text at all? (classes that do not are reported by part 1, not here)
+  bool roundtrips = false;
+  try
+    {
+      std::unique_ptr<CopyOps> F(factory());
+      roundtrips = F->make(sA) && F->info() == sA;
+    }
+  catch (std::bad_alloc&)
+    {
+      throw;
+    }
+  catch (std::exception&)
+    {}
+  std::unique_ptr<CopyOps> C(A->copy(how));
+  std::string sB = sA;
+  bool changed = false;
+  if (then == "reparse")
+    {
+      const std::string tB = accepted_variant(factory, sA, rng);
+      bool okB = true;
+      try
+        {
+          if (!tB.empty())
+            okB = A->parse(tB);
+        }
+      catch (std::bad_alloc&)
+        {
+          throw;
+        }
+      catch (std::exception&)
+        {
+          okB = false;
+        }
+      if (!okB)
+        return "rejected copy-history " + key + ": the original refuses a text that a fresh object of its class accepts";
+      sB = A->info();
+      changed = sB != sA;
+    }
+  else if (then == "destroy")
+    A.reset();
+  const std::string sC = C->info();
+  if (sC != sA)
+    return bad + "a copy (" + (how == 1 ? "operator=" : "copy constructor / clone()") + ") of an object whose keymap is in use does not print the values it was copied with"
+           + (then == "reparse" ? " after the original was re-parsed with other values" : then == "destroy" ? " after the original was destroyed" : "") + ": " + first_diff(sA, sC);
+  // other values into the copy: the original must not notice
+  std::string sC2 = sC;
+  {
+    const std::string tC = accepted_variant(factory, sC, rng);
+    bool okC = true;
+    try
+      {
+        if (!tC.empty())
+          okC = C->parse(tC);
+      }
+    catch (std::bad_alloc&)
+      {
+        throw;
+      }
+    catch (std::exception&)
+      {
+        okC = false;
+      }
+    if (!okC)
+      return "rejected copy-history " + key + ": the copy refuses a text that a fresh object of its class accepts";
+    sC2 = C->info();
+  }
+  if (A)
+    {
+      const std::string sA2 = A->info();
+      if (sA2 != sB)
+        return bad + "parsing other values into a copy changed what the original prints: " + first_diff(sB, sA2);
+    }
+  if (roundtrips)
+    {
+      bool ok = false;
+      std::string sF;
+      try
+        {
+          std::unique_ptr<CopyOps> F(factory());
+          ok = F->make(sC2);
+          if (ok)
+            sF = F->info();
+        }
+      catch (std::bad_alloc&)
+        {
+          throw;
+        }
+      catch (std::exception&)
+        {}
+      if (!ok || sF != sC2)
+        return bad + "the text that a copy prints for itself does not parse into an object that prints the same text: " + (ok ? first_diff(sC2, sF) : std::string("refused"));
+    }
+  return "accepted copy-history " + key + " original-changed=" + (changed ? "1" : "0") + " copy-changed=" + (sC2 != sC ? "1" : "0") + " round-trip=" + (roundtrips ? "1" : "0");
+}
+
 // ------------------------------------------------------------------------------------------------ running
 static volatile int g_progress_fd = -1;
 
@@ -1728,6 +2163,17 @@ on_alarm(int)
     {}
   __sanitizer_print_stack_trace();
   _exit(77);
+}
+
+// abort() (e.g. a failed __glibcxx_assert of operator[]): say where
+static void
+on_abort(int)
+{
+  static const char msg[] = "\nVERIF-ABORT\n";
+  if (write(2, msg, sizeof msg - 1) < 0)
+    {}
+  __sanitizer_print_stack_trace();
+  _exit(78);
 }
 
 static void
@@ -1764,11 +2210,19 @@ main(int argc, char** argv)
         if (std::string(argv[2]) == target_name[k])
           t = static_cast<Target>(k);
       const std::string workdir = argv[3];
-      vh::Rng rng(1);
+      g_workdir_for_copy = workdir;
+      // the data files of the run that is replayed (checks/c17.py passes its seed in VERIF_SEED)
+      const uint64_t seed = std::getenv("VERIF_SEED") ? std::strtoull(std::getenv("VERIF_SEED"), nullptr, 10) : 1;
+      vh::Rng rng(seed * 1315423911ULL + 1717), rng2(seed * 2654435761ULL + 4242);
       make_corpus(workdir, rng); // data files for the headers
+      make_order_corpus(workdir, rng2);
       signal(SIGALRM, on_alarm);
+      signal(SIGABRT, on_abort);
       alarm(20);
-      const std::string verdict = apply_expectation(argc > 5 ? std::string(argv[5]) : std::string(), run_target(t, slurp(argv[4]), workdir, true));
+      const std::string expect = argc > 5 ? std::string(argv[5]) : std::string();
+      const std::string verdict = expect.compare(0, std::strlen(ORDER_TAG), ORDER_TAG) == 0
+                                      ? run_order(t, slurp(argv[4]), unhexs(expect.substr(std::strlen(ORDER_TAG))), workdir)
+                                      : apply_expectation(expect, run_target(t, slurp(argv[4]), workdir, true));
       std::printf("VERDICT %s\n", verdict.c_str());
       return verdict.compare(0, 12, "inconsistent") == 0 ? 3 : 0;
     }
@@ -1815,6 +2269,34 @@ main(int argc, char** argv)
       for (const std::string& text : inputs_for_seed(s, rng, nrandom, nbytes))
         work.push_back({ s.t, s.name, text, "", facts });
     }
+  // ---- size-giving keys in another order (own random stream: the inputs above do not depend on this family)
+  g_workdir_for_copy = workdir;
+  long n_order = 0, n_copy = 0;
+  {
+    vh::Rng rng2(seed * 2654435761ULL + 4242);
+    std::vector<Seed> order_seeds = make_order_corpus(workdir, rng2);
+    for (const Seed& s : order_seeds)
+      work.push_back({ s.t, s.name, s.text, "must-accept the header as written by the library", true });
+    for (const Seed& s : seeds)
+      if (s.t == T_IMAGE || s.t == T_DYNIMAGE || (s.t == T_PDFS && s.name.compare(0, 3, "pd_") == 0))
+        order_seeds.push_back(s);
+    for (const Seed& s : order_seeds)
+      for (const Structured& st : order_inputs(s, rng2, thorough ? 500 : (s.t == T_PARAMIMAGE || s.t == T_DYNIMAGE ? 120 : 50)))
+        {
+          work.push_back({ s.t, s.name, st.text, st.expect, true });
+          ++n_order;
+        }
+    // ---- copies of parsing objects
+    const int nseeds = thorough ? 12 : 2;
+    for (auto& c : copy_classes())
+      for (int how = 0; how < (c.first.compare(0, 6, "clone/") == 0 ? 1 : 2); ++how)
+        for (const char* then : { "reparse", "destroy", "keep" })
+          for (int k = 0; k < nseeds; ++k)
+            {
+              work.push_back({ T_COPY, c.first, "class " + c.first + "\nhow " + std::to_string(how) + "\nthen " + then + "\nseed " + std::to_string(rng2.next() % 1000000) + "\n", "", false });
+              ++n_copy;
+            }
+  }
 
   // The work list is cut into NWORKERS contiguous slices, each handled by its own supervisor process (which forks one child
   // per batch as before and writes its own part of the result file); the parts are concatenated in order afterwards.
@@ -1857,6 +2339,7 @@ main(int argc, char** argv)
           if (nfd >= 0)
             dup2(nfd, 0);
           signal(SIGALRM, on_alarm);
+          signal(SIGABRT, on_abort);
           for (std::size_t k = next; k < std::min(hi, next + batch); ++k)
             {
               // keep only what the library prints for the current input
@@ -1870,7 +2353,9 @@ main(int argc, char** argv)
               if (write(fd[1], msg.c_str(), msg.size()) < 0)
                 {}
               alarm(thorough ? 30 : 15);
-              std::string verdict = apply_expectation(work[k].expect, run_target(work[k].t, work[k].text, workdir, work[k].facts));
+              std::string verdict = work[k].expect.compare(0, std::strlen(ORDER_TAG), ORDER_TAG) == 0
+                                        ? run_order(work[k].t, work[k].text, unhexs(work[k].expect.substr(std::strlen(ORDER_TAG))), workdir)
+                                        : apply_expectation(work[k].expect, run_target(work[k].t, work[k].text, workdir, work[k].facts));
               alarm(0);
               // UBSan signed-integer-overflow reports are not fatal (see checks/c17.py): tag the verdict
               if (slurp(errfile).find("signed integer overflow") != std::string::npos)
@@ -1968,7 +2453,7 @@ main(int argc, char** argv)
     }
   // a supervisor that did not finish leaves the DONE line out: the check reports the run as incomplete
   if (all_ok && parts == NWORKERS)
-    std::fprintf(res, "DONE inputs=%zu killed=%ld inconsistent=%ld structured=%ld\n", work.size(), killed, inconsistent, structured);
+    std::fprintf(res, "DONE inputs=%zu killed=%ld inconsistent=%ld structured=%ld order=%ld copy=%ld\n", work.size(), killed, inconsistent, structured - n_order, n_order, n_copy);
   std::fclose(res);
   return 0;
 }
